@@ -294,7 +294,7 @@ def run(ctx: Ctx) -> None:
         if before != after or nodes_before != nodes_after:
             ctx.violation('load-not-isolated', 'loading a module changed the symbols or node classes of another', dict(sources=srcs, impl_result='differs'))
         # ---- fresh interpreter processes: hash seeds and target orders ----
-        if hidx < ctx.n(2, 40):
+        if hidx < ctx.n(2, 40) and tpl is None:
             ref = None
             for seed, order in [(0, names), (1, list(reversed(names))), (2, names), ('random', sorted(names, key=lambda x: rnd.random()))]:
                 got = fresh_process(srcs, order, seed, scratch)
